@@ -122,6 +122,12 @@ def item_filter(facts, it, loop, field_path):
         pp = param_path(a0.val)
         if n in DROP_CALLS and pp and pp[0] == 1 and tuple(pp[1]) == tuple(field_path) and any(item_derived(a.val, loop) for a in c.args[1:]):
             drop.append(bb)
+        if n in KEEP_CALLS and pp and pp[0] == 1 and tuple(pp[1]) == tuple(field_path) and any(item_derived(a.val, loop) for a in c.args[1:]):
+            # the field itself was emptied (taken / swapped out) before the loop and is refilled with the survivors
+            if any(w.kind in ('take', 'replace') and loc_target(it, w.loc) and loc_target(it, w.loc)[:2] == (1, tuple(field_path))
+                   and w.bb not in loop.blocks for w in it.muts.values()):
+                keep.append(bb)
+                keepvals.append([a.val for a in c.args[1:]])
         if n in KEEP_CALLS and a0.loc is not None and a0.loc[0][0] == 'L' and any(item_derived(a.val, loop) for a in c.args[1:]):
             # a fresh local collection: it must be stored into self.<field> after the loop
             coll = versionless(a0.val)
